@@ -5,13 +5,22 @@ from z3 import Solver, Not, And, simplify, is_false, is_true, sat, unsat, unknow
 
 class Prover:
     def __init__(self, timeout_ms, seed=0):
-        self.s = Solver(); self.s.set('timeout', timeout_ms)
+        self.s = Solver(); self.s.set('timeout', timeout_ms); self.timeout_ms = timeout_ms; self.fresh_mode = False
         if seed: self.s.set('random_seed', seed % (1 << 30))
         self.out = dict(obligations=0, discharged=0, inconclusive=[], solver_s=0.0, nontrivial=[], witnesses=0, twins=0,
                         samples=[], errors=[], programs=0, functions={})
         self.candidates = []
+    def check_fresh(self, assumptions, extra, timeout_ms=None):
+        """same as check() but with a fresh non-incremental solver (z3's tactic pipeline: needed for floating point)"""
+        t0 = time.time(); s = Solver(); s.set('timeout', timeout_ms or self.timeout_ms)
+        for a in assumptions: s.add(a)
+        for a in extra: s.add(a)
+        r = s.check(); m = s.model() if r == sat else None
+        self.out['solver_s'] += time.time() - t0
+        return str(r), m
     def check(self, assumptions, extra):
         """plain satisfiability of assumptions + extra -> ('sat'|'unsat'|'unknown', model|None)"""
+        if self.fresh_mode: return self.check_fresh(assumptions, extra)
         t0 = time.time()
         self.s.push()
         try:
